@@ -346,6 +346,7 @@ def main(out_path: str):
     # C09: itemset value/label refs (constants.EXTERNAL_CHOICES_ITEMSET_REF_*), last-saved instance name
     parts.append(dict_ss("itemsetRefs", {"value": constants.EXTERNAL_CHOICES_ITEMSET_REF_VALUE, "label": constants.EXTERNAL_CHOICES_ITEMSET_REF_LABEL, "value_geojson": constants.EXTERNAL_CHOICES_ITEMSET_REF_VALUE_GEOJSON, "label_geojson": constants.EXTERNAL_CHOICES_ITEMSET_REF_LABEL_GEOJSON, "last_saved": utils.LAST_SAVED_INSTANCE_NAME}, "constants.EXTERNAL_CHOICES_ITEMSET_REF_* and utils.LAST_SAVED_INSTANCE_NAME"))
     parts += __import__("translate_entities").parts()  # C19: entity decision functions (AST → IR)
+    parts.append(dict_ss("smartQuotes", x2j.SMART_QUOTES, "xls2json.SMART_QUOTES (clean_text_values)"))
     parts.append("end Pyxv.Gen\n")
     # several slices may ask for the same table: keep the first definition of each name
     seen, uniq = set(), []
